@@ -192,7 +192,10 @@ class BinaryCarver(BaseCarver):
         add.at(summed_values, searchsorted(unique_indices, index_values), xtab.values)
 
         # converting back to dataframe
-        return DataFrame(summed_values, index=unique_indices, columns=xtab.columns)
+        grouped_xtab = DataFrame(summed_values, index=unique_indices, columns=xtab.columns)
+
+        # keeping modalities in their initial order (numpy.unique sorts them alphabetically)
+        return grouped_xtab.reindex(list(dict.fromkeys(index_values)))
 
     def _association_measure(self, xtab: DataFrame, n_obs: int) -> dict[str, float]:
         """Computes measures of association between feature and target by crosstab.
